@@ -413,6 +413,15 @@ def r_db_clear(ctx: RuleCtx, col: Collector):
         for nd in cfg.simple_nodes():
             if nd.ast is None:
                 continue
+            if nd.kind == FOR and isinstance(nd.ast.iter, (ast.Tuple, ast.List)) and isinstance(nd.ast.target, ast.Name) and \
+                    f"{un}.{a}" in [norm(e) for e in nd.ast.iter.elts]:
+                # for db in (self.x, self.b, ...): db.clear()   -- a loop over a literal tuple always runs its body
+                v = nd.ast.target.id
+                if any(isinstance(x, ast.Call) and isinstance(x.func, ast.Attribute) and x.func.attr == "clear" and
+                       norm(x.func.value) == v for b in nd.ast.body for x in ast.walk(b)) and \
+                        not any(isinstance(x, (ast.Break, ast.Continue, ast.Return, ast.If)) for b in nd.ast.body for x in ast.walk(b)):
+                    nodes.append(nd)
+                continue
             for x in ast.walk(nd.ast):
                 if isinstance(x, ast.Call) and isinstance(x.func, ast.Attribute) and x.func.attr == "clear" and \
                         norm(x.func.value) == f"{un}.{a}":
@@ -726,13 +735,14 @@ def r_tol_sib(ctx: RuleCtx, col: Collector):
             continue
         du = DefUse(f.node)
         lefts = {norm(t.left) for t in tests}
+        from .common import expand_names, canon_arith
         measures = set()
         for t in tests:
             for x in ast.walk(t.left):
                 if isinstance(x, ast.Name):
                     for d in du.defs.get(x.id, []):
                         if isinstance(d, ast.BinOp) and isinstance(d.op, ast.Div):
-                            measures.add(norm(d))
+                            measures.add(canon_arith(expand_names(f.node, d)))
         reductions = {norm(t.left).split(".")[-1] for t in tests}
         construct = f"{f.short}: {len(tests)} convergence tests against {selfn}.tol"
         problems = []
